@@ -32,3 +32,15 @@ silent("C23", "add-list-constructor",
 silent("C23", "copy-markers-dict-constructor",
        [(CP, "        new_pipeline._markers = self._markers.copy()\n        return new_pipeline\n\n    def __iter__",
              "        new_pipeline._markers = dict(self._markers)\n        return new_pipeline\n\n    def __iter__")])
+
+TR = "pennylane/core/transforms/transform.py"
+fire("C23", "call_tapes-skips-routing-entry-for-empty-output",
+     (CP, "                new_tapes, fn = transform(tape, *targs, **tkwargs)\n                execution_tapes.extend(new_tapes)\n",
+          "                new_tapes, fn = transform(tape, *targs, **tkwargs)\n                if not new_tapes:\n                    continue\n                execution_tapes.extend(new_tapes)\n"),
+     "R-C23-route", "__call_tapes")
+fire("C23", "apply_to_sequence-count-only-for-nonempty",
+     (TR, "        batch_fns.append(fn)\n        tape_counts.append(len(new_tapes))", "        batch_fns.append(fn)\n        if new_tapes:\n            tape_counts.append(len(new_tapes))"),
+     "R-C23-route", "_apply_to_sequence")
+silent("C23", "call_tapes-append-order-swapped",
+       [(CP, "                fns.append(fn)\n                end = start + len(new_tapes)\n                slices.append(slice(start, end))",
+             "                end = start + len(new_tapes)\n                slices.append(slice(start, end))\n                fns.append(fn)")])
